@@ -31,7 +31,7 @@ def run(tier, replay):
         cj, oj = os.path.join(wd, "cases.json"), os.path.join(wd, "out.json")
         json.dump(cases, open(cj, "w"))
         rc, out = vlib.go_test(wd, "./internal/clients", OV, "TestC12Run",
-                               env={"VERIF_CASES": cj, "VERIF_OUT": oj, "VERIF_N": 60 if tier == "quick" else 400}, timeout=3000)
+                               env={"VERIF_CASES": cj, "VERIF_OUT": oj, "VERIF_N": 60 if tier == "quick" else 2500}, timeout=3000)
         if rc != 0 or not os.path.exists(oj):
             raise vlib.Inconclusive("harness failed\n" + out[-2500:])
         res = json.load(open(oj))
